@@ -18,6 +18,8 @@ inductive KeyKind
   | globalConfig    -- process-wide configuration attribute (written only by explicit setters)
   | otherClass      -- a write onto a class other than the subject of the operation (base, field owner …)
   | partialArgs     -- the key omits an argument the memoised value depends on (e.g. a flag of the call)
+  | useValue        -- state kept on a Field object (shared by every class that inherits the field) whose
+                    -- content depends on the values / instances the field was USED with
   | unknown         -- key expression the extractor cannot classify
   deriving DecidableEq, Repr, Inhabited
 
@@ -29,6 +31,14 @@ inductive RegKind
   | sharedReturnMutated -- a function returns a module- or class-level mutable object itself and a caller mutates it
   | earlyBoundClassAttr -- an attribute written onto classes after definition is read from another class once
                         -- and captured by a generated closure (frozen at generation time)
+  | fieldAttrWrite      -- an attribute written onto a Field object by a method other than its constructor
+  | defaultArg          -- a mutable default argument that the function mutates, returns or stores
+  | closureCell         -- a mutable local of a function written by a nested function that outlives the call
+                        -- (hand-written memo decorator), or a `nonlocal` rebinding
+  | inheritedMemo       -- a memo kept as a class attribute and read through the MRO (`getattr(cls, X)`): a subclass
+                        -- hits the entry stored on its base class
+  | configCapture       -- global configuration read while generating something that is installed on a class /
+                        -- put into a registry: the value in effect at generation time is frozen per class
   deriving DecidableEq, Repr, Inhabited
 
 structure RegistryRec where
@@ -40,11 +50,19 @@ structure RegistryRec where
   writtenAfterDef : Bool -- written by operations other than class definition
   deriving DecidableEq, Repr, Inhabited
 
-/-- a row is safe when the state cannot carry information from one class to another -/
+/-- unkeyed process-wide state that has been reviewed: it is threaded through the `World` model and no
+    class's `view` reads it (`StructureReference.counter` only numbers the names of inline classes) -/
+def reviewedUnkeyed : List String := ["StructureReference.counter"]
+
+/-- a row is safe when the state cannot carry information from one class to another: keyed by the identity
+    of the class (or Field) it belongs to, or explicit global configuration; an UNKEYED registry (one slot for
+    all classes) is safe only when it is on the reviewed list -/
 def RegistryRec.safe (r : RegistryRec) : Bool :=
   (r.key != .className) && (r.key != .otherClass) && (r.key != .unknown) && (r.key != .partialArgs) &&
+  (r.key != .useValue) && (r.key != .none || reviewedUnkeyed.contains r.name) &&
   (r.kind != .inPlaceClassAttr) && (r.kind != .inPlaceCacheEntry) && (r.kind != .earlyBoundClassAttr) &&
-  (r.kind != .sharedReturnMutated)
+  (r.kind != .sharedReturnMutated) && (r.kind != .configCapture) && (r.kind != .defaultArg) &&
+  (r.kind != .inheritedMemo)
 
 /-- stable finding key of an unsafe row (same strings as in known_findings.json) -/
 def RegistryRec.findingKey (r : RegistryRec) : String :=
@@ -52,11 +70,16 @@ def RegistryRec.findingKey (r : RegistryRec) : String :=
   else if r.kind == .inPlaceCacheEntry then "mutates-cache-entry:" ++ r.name ++ ":" ++ r.site
   else if r.kind == .earlyBoundClassAttr then "early-bound:" ++ r.name ++ ":" ++ r.site
   else if r.kind == .sharedReturnMutated then "mutates-shared-return:" ++ r.name ++ ":" ++ r.site
+  else if r.kind == .configCapture then "config-captured-at-use:" ++ r.name ++ ":" ++ r.site
+  else if r.kind == .inheritedMemo then "inherited-memo:" ++ r.name ++ ":" ++ r.site
+  else if r.kind == .defaultArg then "mutable-default-argument:" ++ r.name
   else match r.key with
     | .partialArgs => "key-drops-argument:" ++ r.name
     | .className => "name-keyed:" ++ r.name
     | .otherClass => "foreign-class-write:" ++ r.name ++ ":" ++ r.site
     | .unknown => "unclassified-key:" ++ r.name
+    | .useValue => "use-dependent-field-state:" ++ r.name ++ ":" ++ r.site
+    | .none => "unkeyed-registry:" ++ r.name
     | _ => "safe:" ++ r.name
 
 /-- what the `World` model needs to know about the code; every switch is read off the table -/
